@@ -309,7 +309,8 @@ class Squid:
         if m:
             probs.append(("assert:" + re.sub(r":\d+:", ":", m.group(1))[:80].replace(" ", "_"), m.group(0)))
         m = re.search(r"FATAL: (?!Received Segment Violation)([^\n]*)", logtxt)
-        if m and "dying" not in m.group(1):
+        # "kidN registration timed out" is Squid's own start-up watchdog firing on a CPU-starved machine: environment, not a verdict
+        if m and "dying" not in m.group(1) and "registration timed out" not in m.group(1):
             probs.append(("fatal:" + m.group(1)[:60].replace(" ", "_"), m.group(0)))
         if "Segment Violation" in logtxt or "Bus Error" in logtxt:
             probs.append(("crash:segv", "segment violation in cache.log"))
